@@ -26,6 +26,15 @@ SET_MUTATORS = {'add', 'discard', 'remove', 'clear', 'update', 'pop', 'differenc
 DICT_MUTATORS = {'setdefault', 'update', 'pop', 'clear', 'popitem', '__setitem__', '__delitem__'}
 MUTATORS = LIST_MUTATORS | SET_MUTATORS | DICT_MUTATORS
 
+
+def _instance_dict_owner(e):
+    """`x` when e is `x.__dict__` or `vars(x)` (the attribute dictionary of x), else None"""
+    if isinstance(e, ast.Attribute) and e.attr == '__dict__':
+        return e.value
+    if isinstance(e, ast.Call) and isinstance(e.func, ast.Name) and e.func.id == 'vars' and len(e.args) == 1 and not e.keywords:
+        return e.args[0]
+    return None
+
 FRESH_CALLS = {'list', 'sorted', 'dict', 'set', 'tuple', 'reversed', 'str', 'int', 'float', 'len', 'sum', 'max', 'min',
                'datetime', 'timedelta', 'range', 'enumerate', 'zip', 'iter', 'next', 'id', 'type', 'bool', 'repr',
                'isinstance', 'callable', 'abs', 'round', 'frozenset'}
@@ -419,11 +428,32 @@ class Effects:
                             continue
                         out.append(Write(t.attr, self.root_of(t.value, f), n, f, 'store', t.value, rt))
                     elif isinstance(t, ast.Subscript):
+                        owner = _instance_dict_owner(t.value)
+                        if owner is not None:
+                            # `x.__dict__[k] = v` / `vars(x)[k] = v` (also `del`): an attribute store that bypasses every setter
+                            key = t.slice
+                            fld = key.value if isinstance(key, ast.Constant) and isinstance(key.value, str) else '<dynamic>'
+                            out.append(Write(fld, self.root_of(owner, f), n, f, 'setattr', owner, self.typer.expr_type(owner, f)))
+                            continue
                         w = self._container_write(t.value, n, f, 'subscript-store')
                         if w:
                             out.append(w)
             elif isinstance(n, ast.Call) and isinstance(n.func, ast.Attribute):
                 name = unmangle(n.func.attr)
+                owner = _instance_dict_owner(n.func.value)
+                if owner is not None and name in DICT_MUTATORS:
+                    # `x.__dict__.update(..)`, `vars(x).pop(k)`, `x.__dict__.setdefault(k, v)` ..: attribute stores by name
+                    key = n.args[0] if n.args and name in ('setdefault', 'pop', '__setitem__', '__delitem__') else None
+                    flds = [key.value] if isinstance(key, ast.Constant) and isinstance(key.value, str) else ['<dynamic>']
+                    if name == 'update' and len(n.args) <= 1 and all(k.arg is not None for k in n.keywords) and \
+                            (not n.args or (isinstance(n.args[0], ast.Dict) and all(
+                                isinstance(k, ast.Constant) and isinstance(k.value, str) for k in n.args[0].keys))) and \
+                            (n.args or n.keywords):
+                        # update({'a': ..}, b=..): the names are in the text
+                        flds = [k.value for k in (n.args[0].keys if n.args else [])] + [k.arg for k in n.keywords]
+                    for fld in flds:
+                        out.append(Write(fld, self.root_of(owner, f), n, f, 'setattr', owner, self.typer.expr_type(owner, f)))
+                    continue
                 if name in MUTATORS:
                     rt = base(self.typer.expr_type(n.func.value, f))
                     if rt in self.prog.classes:
@@ -435,6 +465,10 @@ class Effects:
                     key = n.args[0] if n.args else None
                     fld = key.value if isinstance(key, ast.Constant) else '<dynamic>'
                     recv = n.func.value
+                    if isinstance(recv, ast.Name) and (recv.id == 'object' or recv.id in self.prog.classes) and len(n.args) >= 2:
+                        # unbound form `object.__setattr__(x, name, value)` / `Task.__setattr__(x, name, value)`
+                        recv, key = n.args[0], n.args[1]
+                        fld = key.value if isinstance(key, ast.Constant) else '<dynamic>'
                     if isinstance(recv, ast.Call) and isinstance(recv.func, ast.Name) and recv.func.id == 'super':
                         out.append(Write(fld, 'self', n, f, 'setattr', None, f.cls))
                     else:
